@@ -208,6 +208,10 @@ func structToMap(data any, visiting map[uintptr]bool) map[string]any {
 				tagName = parts[0]
 			}
 		}
+		// A tag that spells the Go name of another field does not take that name (see PopulateStructFields)
+		if other, isField := rt.FieldByName(tagName); tagName != f.Name && isField && other.IsExported() {
+			tagName = f.Name
+		}
 
 		fv := rv.Field(i)
 		fieldValue := fv.Interface()
@@ -328,8 +332,12 @@ func PopulateStructFields(m map[string]any, data any) {
 			}
 		}
 
-		// Add the field itself (for path resolution like item.inStock)
-		m[tagName] = fieldValue
+		// Add the field itself (for path resolution like item.inStock). A tag that spells the
+		// Go name of another field (own or promoted) does not take that name: lookups try
+		// field names first, so the name belongs to the field that carries it.
+		if other, isField := rt.FieldByName(tagName); tagName == f.Name || !isField || !other.IsExported() {
+			m[tagName] = fieldValue
+		}
 
 		// A JSON-tagged field stays addressable by its Go name as well, like in
 		// ResolveValue (unless that name is taken by another field's tag).
